@@ -112,6 +112,7 @@ dj::crate& CR(const std::string& v)
 }
 dj::track& TR(const std::string& v)
 {
+    S.last_track = v;
     auto it = S.tracks.find(v);
     if (it == S.tracks.end()) throw bad_command{"track var " + v};
     if (S.alias)
